@@ -784,6 +784,13 @@ func (e *Engine) rangeIter(x value, t types.Type) iter {
 		}
 		e.raceAccess(x, false)
 		ks, vs := append([]value{}, x.keys...), append([]value{}, x.vals...)
+		if e.permRev {
+			// a second, very different iteration order for maps of any size (Go's order is unspecified)
+			for i, j := 0, len(ks)-1; i < j; i, j = i+1, j-1 {
+				ks[i], ks[j] = ks[j], ks[i]
+				vs[i], vs[j] = vs[j], vs[i]
+			}
+		}
 		if e.sh.permuteMaps && !e.permOff && len(ks) >= 2 && len(ks) <= 4 {
 			// Go's map iteration order is unspecified: explore the orders (Fisher-Yates with forked choices)
 			for i := 0; i < len(ks)-1; i++ {
